@@ -260,7 +260,7 @@ class Ref:
             dflt = None
             for cl in args[1:]:
                 k = self.datum(cl[0])
-                if not isinstance(k, Sym) and _eq(key, k):
+                if _eq(key, k):          # keys are data: a symbol key matches the same quoted symbol, bound or not
                     r = None
                     for b in cl[1:]:
                         r = ev(b, env)
@@ -497,8 +497,16 @@ class ProgGen:
         r = self.rng
         n = r.randint(0, 5)
         k = r.choice(['rec', 'counter', 'hof', 'loop', 'shadow', 'quote', 'qq', 'eval', 'variadic', 'setdeep', 'twoclos', 'letseq',
-                      'nil1', 'nil2', 'nil3', 'nil4', 'mset', 'mset2', 'msetclo', 'recshadow', 'laterdef', 'evaldef'])
+                      'nil1', 'nil2', 'nil3', 'nil4', 'mset', 'mset2', 'msetclo', 'recshadow', 'laterdef', 'evaldef', 'casesym', 'casesym'])
         f, g, x, y = self.fresh(), self.fresh(), r.choice(self.names), r.choice(self.names)
+        if k == 'casesym':
+            # clause keys are data: a key that happens to be the name of a variable in scope (at any distance) still
+            # matches the quoted symbol
+            other = y if y != x else 'otherkey'
+            inner = ['case', ['quote', x], [other, 10], [x, ['+', x, 20]], ['default', 30]]
+            for _ in range(r.randint(0, 2)):
+                inner = r.choice([['let', [[self.fresh(), 0]], inner], [['fn', [], inner]]])
+            return [['define', f, n], ['let', [[x, n]], inner], ['case', ['quote', f], [f, f], ['default', 0]]]
         if k == 'rec':
             return [['define', f, ['fn', [x], ['if', ['<', x, 1], 0, ['+', x, [f, ['-', x, 1]]]]]], [f, n]]
         if k == 'counter':
